@@ -305,6 +305,11 @@ def clim_members():
         'z-then-plain': [dict(tspan=T, vspan=(3, 6), zspan=(10, 20)), dict(base)],
         'z-then-month': [dict(tspan=T, vspan=(3, 6), zspan=(10, 20), fspan=(0, 8)), dict(tspan=(2, 3), vspan=(2, 4), period='month')],
         'mixed': [dict(tspan=(2, 3), vspan=(2, 4), period='month'), dict(base, zspan=(10, 20), fspan=(1, 5))],
+        # the same window configured twice (a baseline and a later correction), alone and around a different overlapping member
+        'same-window-twice': [dict(base), dict(base, vspan=(3, 6), fspan=(0, 8))],
+        'correction-after-other': [dict(base), dict(tspan=(CLIM_T[2], CLIM_T[4]), vspan=(3, 6), fspan=(0, 8)), dict(base, vspan=(5, 7))],
+        'month-correction-after-other': [dict(tspan=(2, 3), vspan=(2, 4), period='month'), dict(tspan=(1, 2), vspan=(3, 6), period='month', fspan=(0, 8)),
+                                         dict(tspan=(2, 3), vspan=(5, 7), period='month')],
     }
     return out
 
@@ -351,6 +356,19 @@ def climatology(tier, carrier='list_none', tcarrier='dt64', members=None):
                              meta={'class': name + ('' if order == sorted(order) else '/unsorted-times'), 't': t, 'z': z, 'feat': feats, 'members': ms},
                              label=f'climatology_test(members={name}; inp:{ip!r} zinp:{zp!r} z={z}' + ('' if order == sorted(order) else f'; time order {order}') + ')')
                     yield c, specs.Climatology(c)
+    # instants that are not on whole seconds, just outside / on the ends of an absolute member span, in every time spelling that can carry them
+    if members is None or 'sub-second' in members:
+        half = Fr(1, 2)
+        t = [T_LO - half, Fr(T_LO), Fr(T_HI), T_HI + half, T_HI + 3 * half]
+        ms = [dict(tspan=(T_LO, T_HI), vspan=(2, 4), fspan=(1, 5))]
+        cfg = [dict(tspan=(TS(T_LO), TS(T_HI)), vspan=(Fr(2), Fr(4)), fspan=(Fr(1), Fr(5)))]
+        for tc in ('dt64', 'epoch_array', 'epoch_list', 'dtindex', 'pydatetime'):
+            for ip in ('ppppp', 'pmppp'):
+                c = Case('climatology_test', [], dict(config=cfg, inp=data_input('inp', ip, carrier), tinp=time_input('tinp', t, tc),
+                                                     zinp=data_input('zinp', 'ppppp', carrier, values=[Fr(15)] * 5)),
+                         n=5, pat={'inp': ip, 'zinp': 'ppppp'}, meta={'class': f'sub-second/{tc}', 't': t, 'z': [15] * 5, 'feat': {}, 'members': ms},
+                         label=f'climatology_test(member ends on whole seconds, observations half a second outside; time={tc}; inp:{ip!r})')
+                yield c, specs.Climatology(c)
     # an unknown period name is rejected
     bad = [dict(tspan=(Fr(1), Fr(2)), vspan=(Fr(2), Fr(4)), period='fortnight')]
     c = Case('climatology_test', [], dict(config=bad, inp=data_input('inp', 'p', carrier), tinp=time_input('tinp', [CLIM_T[0]], tcarrier),
